@@ -64,9 +64,11 @@ class RQKernel(Kernel):
 
     def forward(self, x1, x2, diag=False, **params):
         def postprocess_rq(dist_mat):
+            # alpha is `*batch_shape x 1`: give it exactly the trailing (non-batch) dims of dist_mat, so that it
+            # stays aligned with the kernel's batch dims when the inputs carry additional leading batch dims
+            num_trailing = (1 if diag else 2) + (1 if params.get("last_dim_is_batch", False) else 0)
             alpha = self.alpha
-            for _ in range(1, len(dist_mat.shape) - len(self.batch_shape)):
-                alpha = alpha.unsqueeze(-1)
+            alpha = alpha.reshape(*alpha.shape[:-1], *([1] * num_trailing))
             return (1 + dist_mat.div(2 * alpha)).pow(-alpha)
 
         x1_ = x1.div(self.lengthscale)
